@@ -239,7 +239,92 @@ def sweeps(tier, rng):
                 except Exception as e:
                     bad = "large %s lookup raised %r" % (kind, e)
                 yield (("split", kind, nn), bad)
-    return [Sweep("overflow-kerning", run_overflow), Sweep("compaction", run_compaction), Sweep("repacker-equivalence", run_repacker_equivalence), Sweep("subtable-splits", run_splits)]
+    def run_pair_glyph_splits():
+        """glyph-pair kerning (PairPos format 1) large enough to overflow: odd and even numbers of first glyphs, pure-Python packer"""
+        from fontTools.fontBuilder import FontBuilder
+        from fontTools.pens.ttGlyphPen import TTGlyphPen
+        for nfirst in ([401, 400] if tier == "quick" else [400, 401, 413, 530, 777]):
+            for repacker in ((False,) if tier == "quick" else (False, None)):
+                bad = None
+                try:
+                    L = ["L%04d" % i for i in range(nfirst)]; R = ["R%04d" % i for i in range(50)]
+                    order = [".notdef"] + L + R
+                    fb = FontBuilder(1000, isTTF=True); fb.setupGlyphOrder(order); fb.setupCharacterMap({0xE000 + i: n for i, n in enumerate(order[1:])})
+                    pen = TTGlyphPen(None); pen.moveTo((0, 0)); pen.lineTo((100, 0)); pen.lineTo((50, 100)); pen.closePath(); g = pen.glyph()
+                    fb.setupGlyf({n: g for n in order}); fb.setupHorizontalMetrics({n: (500, 0) for n in order}); fb.setupHorizontalHeader(ascent=800, descent=-200)
+                    fb.setupNameTable({"familyName": "P1", "styleName": "R"}); fb.setupOS2(); fb.setupPost()
+                    rules = {}; lines = ["languagesystem DFLT dflt;", "feature kern {"]
+                    for i, l in enumerate(L):
+                        for j, r in enumerate(R):
+                            v = -((i * 53 + j * 7) % 997) - 1          # every row distinct: identical PairSets would be shared by the packer
+                            rules[(l, r)] = (v, 0); lines.append("  pos %s %s %d;" % (l, r, v))
+                    lines.append("} kern;")
+                    if repacker is not None: fb.font.cfg[OPT_REPACK] = repacker
+                    if nfirst % 2 or rng.chance(50):
+                        # ONE format-1 subtable holding every pair (what a table built through otlLib or read from a file may look
+                        # like): the compiler itself must split it when the PairSet offsets overflow
+                        from fontTools.otlLib import builder as otl
+                        fb.addOpenTypeFeatures("languagesystem DFLT dflt;\nfeature kern {\n  pos %s %s -1;\n} kern;" % (L[0], R[0]))
+                        pairs = {k: (otl.buildValue({"XAdvance": v[0]}), None) for k, v in rules.items()}
+                        lk = fb.font["GPOS"].table.LookupList.Lookup[0]
+                        lk.SubTable = [otl.buildPairPosGlyphsSubtable(pairs, fb.font.getReverseGlyphMap())]; lk.SubTableCount = 1
+                    else:
+                        fb.addOpenTypeFeatures("\n".join(lines))
+                    data = save_bytes(fb.font)
+                    sample = [(l, R[(i * 3) % 50]) for i, l in enumerate(L)] + [(L[-1], r) for r in R] + [(L[nfirst // 2 + d], R[0]) for d in (-2, -1, 0, 1, 2)]
+                    bad = check_kern(data, order, rules, sample)
+                except Exception as e:
+                    bad = "building %d x 50 glyph pairs raised %r" % (nfirst, e)
+                yield (("glyph-pair-split", nfirst, "repacker=%r" % (repacker,)), bad)
+    def run_compaction_handbuilt():
+        """compaction applied to PairPos format 2 subtables that are valid but not what the builder emits: ClassDef1 lists glyphs
+        outside the Coverage, classes without covered glyphs are all-zero"""
+        from fontTools.fontBuilder import FontBuilder
+        from fontTools.pens.ttGlyphPen import TTGlyphPen
+        from fontTools.otlLib.optimize import compact
+        for it in range(4 if tier == "quick" else 24):
+            for level in ([1, 5] if tier == "quick" else [1, 3, 5, 9]):
+                bad = None
+                try:
+                    L = ["L%02d" % i for i in range(14)]; R = ["R%02d" % i for i in range(9)]
+                    order = [".notdef"] + L + R
+                    fb = FontBuilder(1000, isTTF=True); fb.setupGlyphOrder(order); fb.setupCharacterMap({0xE000 + i: n for i, n in enumerate(order[1:])})
+                    pen = TTGlyphPen(None); pen.moveTo((0, 0)); pen.lineTo((100, 0)); pen.lineTo((50, 100)); pen.closePath(); g = pen.glyph()
+                    fb.setupGlyf({n: g for n in order}); fb.setupHorizontalMetrics({n: (500, 0) for n in order}); fb.setupHorizontalHeader(ascent=800, descent=-200)
+                    fb.setupNameTable({"familyName": "CH", "styleName": "R"}); fb.setupOS2(); fb.setupPost()
+                    # classes of first glyphs 1..4 and second glyphs 1..3; sparse values
+                    c1 = {l: 1 + (i * 5 + it) % 4 for i, l in enumerate(L)}; c2 = {r: 1 + (i + it) % 3 for i, r in enumerate(R)}
+                    vals = {(a, b): (((a * 31 + b * 17 + it) % 7) - 3) * 10 if (a + b + it) % 3 else 0 for a in range(1, 5) for b in range(1, 4)}
+                    lines = ["languagesystem DFLT dflt;", "feature kern {"]
+                    for a in range(1, 5):
+                        for b in range(1, 4):
+                            if vals[(a, b)]: lines.append("  pos [%s] [%s] %d;" % (" ".join(l for l in L if c1[l] == a), " ".join(r for r in R if c2[r] == b), vals[(a, b)]))
+                    lines.append("} kern;")
+                    fb.font.cfg[OPT_COMPACT] = 0
+                    fb.addOpenTypeFeatures("\n".join(lines))
+                    f = fb.font
+                    # make it "hand-built": shrink the Coverage of every class-pair subtable, ClassDef1 keeps the dropped glyphs
+                    dropped = set()
+                    for lk in f["GPOS"].table.LookupList.Lookup:
+                        for st in lk.SubTable:
+                            st = getattr(st, "ExtSubTable", st)
+                            if getattr(st, "Format", None) == 2 and hasattr(st, "ClassDef1") and len(st.Coverage.glyphs) > 2:
+                                drop = st.Coverage.glyphs[(it * 3) % len(st.Coverage.glyphs)]
+                                st.Coverage.glyphs = [g_ for g_ in st.Coverage.glyphs if g_ != drop]; dropped.add(drop)
+                    before = save_bytes(f)
+                    f2 = TTFont(io.BytesIO(before)); compact(f2, level); after = save_bytes(f2)
+                    h0 = HBFont(before, order); h1 = HBFont(after, order); gid = {n: i for i, n in enumerate(order)}
+                    for l in L:
+                        for r in R:
+                            t = chr(0xE000 + gid[l] - 1) + chr(0xE000 + gid[r] - 1)
+                            a = h0.shape(t, features={"kern": True}); b = h1.shape(t, features={"kern": True})
+                            if a != b: bad = "pair %s %s (first glyph %s the coverage): uncompacted %r, compacted at level %d %r" % (l, r, "outside" if l in dropped else "inside", [x[1] for x in a], level, [x[1] for x in b]); break
+                        if bad: break
+                except Exception as e:
+                    bad = "hand-built compaction case raised %r" % (e,)
+                yield (("compaction-handbuilt", it, level), bad)
+    return [Sweep("overflow-kerning", run_overflow), Sweep("compaction", run_compaction), Sweep("repacker-equivalence", run_repacker_equivalence), Sweep("subtable-splits", run_splits),
+            Sweep("glyph-pair-splits", run_pair_glyph_splits), Sweep("compaction-handbuilt", run_compaction_handbuilt)]
 
 def classify(sweep, case, failure):
     return None
